@@ -35,7 +35,7 @@ var c16SourceFaults = map[string][]string{
 	"unknown-stored-name":  {"##!=> nosuchname"},
 	"missing-store-name":   {"##!=<"},
 	"unsupported-flag":     {"##!+ x", "##!+ im", "##!+ i1", "##!+ i,s", "##!+ ?", "##!+ i s", "##!+ i-s", "##!+ I"},
-	"odd-replacement-list": {"##!> include inc1 -- a", "##!> include-except inc1 exc1 -- a b c"},
+	"odd-replacement-list": {"##!> include inc1 -- a", "##!> include-except inc1 exc1 -- a b c", "##!> include inc1 -- a \\s*\u00a0\\s* b", "##!> include inc1 -- a x\u3000y b"},
 	"flags-in-include":     {"##!+ i"},
 	// directive lines that no directive pattern accepts: they must not end up as literal text of the regex
 	"malformed-directive": {"##!> include inc1 @ ~", "##!> define sep a b", "##!> define na.me x", "##!> include-except", "##!> include-except inc1", "##!> include", "##!> define x", "##!> define",
@@ -361,6 +361,10 @@ func c16Cases(env *core.Env, rng *rand.Rand) []core.Case {
 		// I/O faults injected on one file of the tree
 		io := func(fault, cmd, which string) {
 			cs = append(cs, &c16Case{IO: &c16IO{Proj: p, Fault: fault, Cmd: cmd, Which: which}, Fault: "io:" + fault, Cmd: cmd, Which: which})
+			if strings.HasPrefix(fault, "read-") {
+				// the same with the first read succeeding: the fault hits the middle of the file
+				cs = append(cs, &c16Case{IO: &c16IO{Proj: p, Fault: fault, Cmd: cmd, Which: which, When: "2+"}, Fault: "io:" + fault + "(midway)", Cmd: cmd, Which: which})
+			}
 		}
 		for _, which := range []string{"first", "middle", "last"} {
 			for _, cmd := range []string{"generate", "update", "compare", "format-check", "update-all", "compare-all"} {
@@ -397,7 +401,7 @@ func init() {
 	register(&core.Property{
 		ID:    "C16",
 		Level: "fault_enumeration",
-		Rule: "fault catalogue, enumerated completely per tree: 12 source-level fault classes (missing include / exclude file, malformed entry (7 forms), unknown processor, unknown or missing cmdline type, end marker without start, start without end (3 forms), unknown stored name, store marker without name, unsupported flag, odd replacement list, flags in an include file) x positions (end of file, start of file, inside an assemble block, inside an included file) x commands (generate from file and stdin, update, compare in text and github mode, update/compare --all with the faulty file first/middle/last in walk order, format/format --check/format --all where the formatter can see the fault) plus 9 tree/argument faults (rule id not in the rules file, chain offset beyond the chain, no / two rules files for the prefix, operator that is not @rx, missing assembly file, malformed rule argument, invalid / missing version). Per tree also ~90 I/O faults: every read of one file (the include file, the assembly file, the rules file, a test file, a .conf file) fails with EIO, or every write to the file a command rewrites fails with ENOSPC, or the directory an --all command walks cannot be listed (injected with strace -P <file> -e inject=...), for the single-target and --all forms with the poisoned unit first/middle/last: the command must not exit 0, generate must print nothing, a command that could not read must not have written, and a file that could not be read must not be rewritten; a case counts only if the log shows injected calls. Tiers differ only in the number of generated trees around the faults (2 vs 40). " +
+		Rule: "fault catalogue, enumerated completely per tree: 12 source-level fault classes (missing include / exclude file, malformed entry (7 forms), unknown processor, unknown or missing cmdline type, end marker without start, start without end (3 forms), unknown stored name, store marker without name, unsupported flag, odd replacement list, flags in an include file) x positions (end of file, start of file, inside an assemble block, inside an included file) x commands (generate from file and stdin, update, compare in text and github mode, update/compare --all with the faulty file first/middle/last in walk order, format/format --check/format --all where the formatter can see the fault) plus 9 tree/argument faults (rule id not in the rules file, chain offset beyond the chain, no / two rules files for the prefix, operator that is not @rx, missing assembly file, malformed rule argument, invalid / missing version). Per tree also ~90 I/O faults: every read of one file (the include file, the assembly file, the rules file, a test file, a .conf file) fails with EIO, or every write to the file a command rewrites fails with ENOSPC, or the directory an --all command walks cannot be listed (injected with strace -P <file> -e inject=...; every read fault also in the variant where the first read succeeds and the file is longer than two buffers), for the single-target and --all forms with the poisoned unit first/middle/last: the command must not exit 0, generate must print nothing, a command that could not read must not have written, and a file that could not be read must not be rewritten; a case counts only if the log shows injected calls. Tiers differ only in the number of generated trees around the faults (2 vs 40). " +
 			"Oracle: exit status != 0; generate prints nothing; compare never says 'has not changed' for the faulty rule; the sandbox snapshot is unchanged for single-target commands; for --all the faulty unit is byte-identical, every other operand is either the old one or exactly generate's output, and no other line or file changes. Non-trivial = every injected fault.",
 		Cases:         c16Cases,
 		Check:         c16Check,
@@ -414,6 +418,7 @@ type c16IO struct {
 	Fault string   `json:"fault"` // read-include | read-assembly | read-rules | read-test | read-conf | write-target
 	Cmd   string   `json:"cmd"`
 	Which string   `json:"which"`
+	When  string   `json:"when,omitempty"` // "" = every call fails; "2+" = the first call succeeds (a fault midway through a file of more than 4 KiB)
 }
 
 func c16IOCheck(env *core.Env, c *c16IO) core.Verdict {
@@ -428,6 +433,22 @@ func c16IOCheck(env *core.Env, c *c16IO) core.Verdict {
 	ft := targets[idx]
 	tree := p.tree()
 	src := "leadword\n##!> include inc1\ntailword\n"
+	if c.When != "" {
+		// every file that can be poisoned is longer than two read buffers, so that a fault after the first read hits
+		// the middle of it
+		var fill strings.Builder
+		for i := 0; fill.Len() < 9000; i++ {
+			fmt.Fprintf(&fill, "filler%04dentry\n", i)
+		}
+		src = "leadword\n##!> include inc1\n" + fill.String() + "tailword\n"
+		tree["regex-assembly/include/inc1.ra"] += fill.String() + "lastincluded\n"
+		for _, f := range p.Files {
+			tree[f.path()] += strings.Repeat("# a line of filler behind the last rule of the file\n", 200)
+		}
+		for n := range p.Tests {
+			tree["tests/regression/tests/"+n] += strings.Repeat("    # filler line behind the last test\n", 250)
+		}
+	}
 	tree["regex-assembly/"+ft.Key+".ra"] = src
 	testRel := ""
 	for _, n := range sortedKeys(p.Tests) {
@@ -520,11 +541,11 @@ func c16IOCheck(env *core.Env, c *c16IO) core.Verdict {
 	poisonBefore, _ := sut.Read(root, poison)
 	logf := filepath.Join(filepath.Dir(root), "inject.log")
 	full := append([]string{"-d", root}, args...)
-	r := sut.Run(sut.Cmd{Bin: env.Bin, Args: full, Dir: root, Strace: logf, InjectPath: filepath.Join(root, poison), InjectCall: call, InjectErr: errno, Timeout: 60 * time.Second})
+	r := sut.Run(sut.Cmd{Bin: env.Bin, Args: full, Dir: root, Strace: logf, InjectPath: filepath.Join(root, poison), InjectCall: call, InjectErr: errno, InjectWhen: c.When, Timeout: 60 * time.Second})
 	logb, _ := os.ReadFile(logf)
 	_ = os.Remove(logf)
 	injected := strings.Count(string(logb), "(INJECTED)")
-	v := core.Verdict{Status: core.Held, Features: []string{"fault:io:" + c.Fault, "cmd:" + c.Cmd}, Counts: map[string]int{"injected_calls": injected}}
+	v := core.Verdict{Status: core.Held, Features: []string{"fault:io:" + c.Fault + map[bool]string{true: "(midway)", false: ""}[c.When != ""], "cmd:" + c.Cmd}, Counts: map[string]int{"injected_calls": injected}}
 	if r.Class() == sut.ClassTimeout {
 		return core.Incon("watchdog hit, not judged: %s", describe(r))
 	}
@@ -532,7 +553,7 @@ func c16IOCheck(env *core.Env, c *c16IO) core.Verdict {
 		return core.Verdict{Status: core.Skipped, Msg: "the command never touched the poisoned file"}
 	}
 	v.Nontrivial = true
-	what := fmt.Sprintf("every %s on %s fails with %s (%d calls), command %v", call, poison, errno, injected, args)
+	what := fmt.Sprintf("every %s%s on %s fails with %s (%d calls), command %v", call, map[bool]string{true: " but the first", false: ""}[c.When != ""], poison, errno, injected, args)
 	if r.Class() == sut.ClassFault {
 		return core.Viol("crash:io:"+c.Fault, "%s: crashed: %s", what, describe(r))
 	}
